@@ -66,4 +66,4 @@ LEVEL_TEXT = ('Bounded symbolic verification of the real SparseLUSolver/SparseMa
               '(4 in thorough), unsorted column orders, both CSR constructors and the nz_per_row path, 1-2 successive right-hand sides. Dimensions are bounded.')
 LEVEL_NOTE = 'exact arithmetic; n <= 5; hash iteration order as modelled (two rehash policies); -DNDEBUG build; exit(EXIT_FAILURE) on |U_ii| < 1e-12 is "rejected"'
 TECHNIQUE = 'symbolic execution of LLVM IR (llsym) + SMT (z3 QF_NRA), path forking on the solver\'s own pivot guard'
-DESIGN_REF = 'DESIGN.md section 6/C16'
+DESIGN_REF = 'DESIGN.md section 0 (status as built: 0.2, 0.5, 0.6) and section 6/C16 (design)'
